@@ -701,6 +701,12 @@ func ruleP25(r *Run) {
 			if !ok {
 				return true
 			}
+			// go helper(..., ch): the goroutine is a named function that is given the channel to report on
+			for _, a := range gs.Call.Args {
+				if o := identObj(info, a); o != nil && made[o] != nil {
+					sentByGo[o] = true
+				}
+			}
 			fl, ok := ast.Unparen(gs.Call.Fun).(*ast.FuncLit)
 			if !ok {
 				return true
@@ -1024,5 +1030,189 @@ func ruleS20(r *Run) {
 	})
 	if n == 0 {
 		r.Ok("calls of Conn.SetReadLimit in rpc/websocket", 0, "none: every message reaches the handler's own length test")
+	}
+}
+
+// ---------------------------------------------------------------------------------------------------
+
+func init() {
+	register("G63", "a pending call keeps its slot: where a multiplexing transport numbers its requests with fewer than 31 bits (the UDP datagram header has 15), the number comes round while calls are still pending, and the insertion into the table of pending calls stands under a test that the slot is free - otherwise the new call takes the slot of the waiting one, receives ITS response, and the old call never returns (32768 calls while one is held: caller B got \"held:A\"). With 31 bits the number space cannot come round within the life of a call", 3, ruleG63)
+}
+
+func ruleG63(r *Run) {
+	p := r.P
+	for _, rel := range []string{"rpc/socket", "rpc/websocket", "rpc/udp"} {
+		pkg := p.Pkg(rel)
+		if pkg == nil {
+			r.Undec("package "+rel, 0, "not found")
+			continue
+		}
+		info := pkg.TypesInfo
+		key := "pending slot not replaced in " + rel
+		// the number space: the mask applied to the atomic counter in conn.Transport
+		fd, _ := p.DeclOf(rel, "conn.Transport")
+		if fd == nil {
+			r.Undec(key, 0, "conn.Transport not found")
+			continue
+		}
+		var mask int64 = -1
+		ast.Inspect(fd.Body, func(m ast.Node) bool {
+			be, ok := m.(*ast.BinaryExpr)
+			if !ok || be.Op != token.AND {
+				return true
+			}
+			if c, ok := ast.Unparen(be.X).(*ast.CallExpr); ok && strings.HasPrefix(FullNameOf(info, c), "sync/atomic.Add") {
+				if v, ok := intConst(info, be.Y); ok {
+					mask = v
+				}
+			}
+			return true
+		})
+		if mask < 0 {
+			r.Undec(key, fd.Pos(), "no atomic counter masked with a constant in conn.Transport")
+			continue
+		}
+		if mask >= 1<<30 {
+			r.Ok(key, fd.Pos(), fmt.Sprintf("request numbers have %d values: the number cannot come round while a call is pending", mask+1))
+			continue
+		}
+		// insertions into a map field from int to channel
+		found := false
+		p.EachFunc(func(fp *packages.Package, f2 *ast.FuncDecl) {
+			if fp != pkg {
+				return
+			}
+			parents := parentMap(f2.Body)
+			ast.Inspect(f2.Body, func(m ast.Node) bool {
+				as, ok := m.(*ast.AssignStmt)
+				if !ok || as.Tok != token.ASSIGN || len(as.Lhs) != 1 {
+					return true
+				}
+				ie, ok := ast.Unparen(as.Lhs[0]).(*ast.IndexExpr)
+				if !ok {
+					return true
+				}
+				fv := fieldOf(info, ie.X)
+				if fv == nil {
+					return true
+				}
+				mt, ok := fv.Type().Underlying().(*types.Map)
+				if !ok {
+					return true
+				}
+				if _, isChan := mt.Elem().Underlying().(*types.Chan); !isChan {
+					return true
+				}
+				found = true
+				// comma-ok lookups of the same field with the same key: their ok variables
+				free := false
+				okVars := map[types.Object]bool{}
+				ast.Inspect(f2.Body, func(q ast.Node) bool {
+					a2, ok := q.(*ast.AssignStmt)
+					if !ok || len(a2.Lhs) != 2 || len(a2.Rhs) != 1 {
+						return true
+					}
+					i2, ok := ast.Unparen(a2.Rhs[0]).(*ast.IndexExpr)
+					if ok && fieldOf(info, i2.X) == fv && types.ExprString(i2.Index) == types.ExprString(ie.Index) {
+						if o := identObj(info, a2.Lhs[1]); o != nil {
+							okVars[o] = true
+						}
+					}
+					return true
+				})
+				for _, fc := range collectFacts(parents, as) {
+					if o := identObj(info, fc.e); o != nil && okVars[o] && fc.neg {
+						free = true
+					}
+				}
+				r.Check(free, key+" ("+p.DeclName(f2)+")", as.Pos(), "inserted only when the slot is free", fmt.Sprintf("the channel of the new call is stored under its number without a test that no pending call holds that number; the numbers have only %d values and come round while calls are waiting: the waiting call's response is delivered to the new call and the waiting call never returns", mask+1))
+				return true
+			})
+		})
+		if !found {
+			r.Undec(key, fd.Pos(), "no insertion into a table of pending calls found")
+		}
+	}
+}
+
+// ---------------------------------------------------------------------------------------------------
+
+func init() {
+	register("S21", "the configured limit is not pushed over the edge: an addition to a value taken from MaxRequestLength (limit+1 for the LimitReader, limit++) stands under a test that the value is below the maximum of its type - with MaxRequestLength = math.MaxInt (the natural spelling of `no limit`) int64(limit)+1 is negative, the LimitReader reads nothing and EVERY request is refused with 400, although all of them are within the limit", 1, ruleS21)
+}
+
+func ruleS21(r *Run) {
+	p := r.P
+	n := 0
+	p.EachFunc(func(pkg *packages.Package, fd *ast.FuncDecl) {
+		if !strings.HasPrefix(p.RelPkg(pkg.Types), "rpc") {
+			return
+		}
+		info := pkg.TypesInfo
+		parents := parentMap(fd.Body)
+		// locals that hold the limit
+		holds := map[types.Object]bool{}
+		ast.Inspect(fd.Body, func(m ast.Node) bool {
+			as, ok := m.(*ast.AssignStmt)
+			if !ok || len(as.Lhs) != len(as.Rhs) {
+				return true
+			}
+			for i, rhs := range as.Rhs {
+				if isMaxReqLen(info, rhs) {
+					if o := identObj(info, as.Lhs[i]); o != nil {
+						holds[o] = true
+					}
+				}
+			}
+			return true
+		})
+		isLimit := func(e ast.Expr) bool {
+			if isMaxReqLen(info, e) {
+				return true
+			}
+			o := identObj(info, stripConv(info, e))
+			return o != nil && holds[o]
+		}
+		k := 0
+		check := func(at ast.Node, operand ast.Expr) {
+			n++
+			k++
+			key := fmt.Sprintf("addition to the request limit in %s #%d", p.DeclName(fd), k)
+			good := false
+			want := types.ExprString(ast.Unparen(stripConv(info, operand)))
+			for _, f := range collectFacts(parents, at) {
+				be, ok := f.e.(*ast.BinaryExpr)
+				if !ok {
+					continue
+				}
+				x, y := types.ExprString(ast.Unparen(stripConv(info, be.X))), types.ExprString(be.Y)
+				if x == want && strings.Contains(y, "Max") && (!f.neg && (be.Op == token.LSS || be.Op == token.NEQ) || f.neg && (be.Op == token.GEQ || be.Op == token.EQL)) {
+					good = true
+				}
+			}
+			r.Check(good, key, at.Pos(), "under a test against the maximum of the type", "1 is added to the configured limit `"+want+"` without a test that it is below the maximum of its type: with MaxRequestLength = math.MaxInt the sum is negative, the bounded reader reads nothing and every request is refused")
+		}
+		ast.Inspect(fd.Body, func(m ast.Node) bool {
+			switch x := m.(type) {
+			case *ast.BinaryExpr:
+				if x.Op == token.ADD {
+					if _, isC := intConst(info, x.Y); isC && isLimit(x.X) {
+						check(x, x.X)
+					}
+				}
+			case *ast.IncDecStmt:
+				if x.Tok == token.INC && isLimit(x.X) {
+					check(x, x.X)
+				}
+			case *ast.AssignStmt:
+				if x.Tok == token.ADD_ASSIGN && len(x.Lhs) == 1 && isLimit(x.Lhs[0]) {
+					check(x, x.Lhs[0])
+				}
+			}
+			return true
+		})
+	})
+	if n == 0 {
+		r.Undec("additions to MaxRequestLength", 0, "none found")
 	}
 }
